@@ -178,6 +178,12 @@ func (s *service) GetChunkHashes(ctx context.Context, addr boson.Address, pyrami
 		bmtWriter := bmt.NewBmtWriter(&noopChainWriter{})
 		for hash, data := range pyramid {
 			var ref boson.Address
+			// every entry may be stored as a chunk below: apply the chunk size bound, because
+			// the BMT writer silently ignores the bytes beyond its capacity.
+			if len(data) > boson.ChunkWithSpanSize {
+				err = ErrInvalidPyramid
+				return
+			}
 			args := pipeline.PipeWriteArgs{Data: data}
 			err = bmtWriter.ChainWrite(&args)
 			if err != nil {
